@@ -770,3 +770,48 @@ Definition Qn (n : Z) (d : positive) (u : string) : qty := Qty (Fin (mkq n d)) {
 Definition U (n : string) : uc := {[ n := 1%Qc ]}.
 Definition Dlen : uc := mkuc [("[length]", mkq 1 1)].
 Definition Dtemp : uc := mkuc [("[temperature]", mkq 1 1)].
+
+Lemma some_pair_inj {A B} (a a' : A) (b b' : B) : Some (a, b) = Some (a', b') → a = a' ∧ b = b'.
+Proof. intros H. apply Some_inj in H. apply pair_equal_spec in H. exact H. Qed.
+(** [<] is the specification's [phys_lt] on positively scaled multiplicative units *)
+Theorem lt_is_phys_lt qk r x y ua ub d fa fb Ba Bb :
+  reg_nz r → rooted r ua d 1 0 fa Ba → rooted r ub d 1 0 fb Bb →
+  mult_unit r ua d fa → mult_unit r ub d fb → (0 < fa)%Qc → (0 < fb)%Qc →
+  let a := Qty (Fin x) ua in let b := Qty (Fin y) ub in
+  (q_lt r a (OQty b) = Ok true ↔ phys_lt r a b) ∧ (q_gt r a (OQty b) = Ok true ↔ phys_lt r b a)
+  ∧ (q_eq qk r a (OQty b) = Ok true ↔ phys_eq r a b).
+Proof.
+  intros Hnz Ha Hb Ma Mb Pa Pb a b.
+  destruct (trichotomy_mult qk r x y ua ub d fa fb Ba Bb Hnz Ha Hb Ma Mb Pa Pb) as (Hc & He & Hl & Hg & _).
+  fold a b in Hc, He, Hl, Hg. rewrite Hl, Hg, He.
+  assert (Pha : phys r a = Some (d, (x * fa)%Qc)).
+  { unfold a. rewrite (phys_opnd r ua d 1 0 fa x Hnz) by (left; auto). do 2 f_equal. ring. }
+  assert (Phb : phys r b = Some (d, (y * fb)%Qc)).
+  { unfold b. rewrite (phys_opnd r ub d 1 0 fb y Hnz) by (left; auto). do 2 f_equal. ring. }
+  assert (LT : phys_lt r a b ↔ (x * fa < y * fb)%Qc).
+  { unfold phys_lt. rewrite Pha, Phb. split.
+    - intros (? & ? & ? & H1 & H2 & Hlt). apply some_pair_inj in H1 as [<- <-]. apply some_pair_inj in H2 as [_ <-]. exact Hlt.
+    - intros Hlt. exists d, (x * fa)%Qc, (y * fb)%Qc. auto. }
+  assert (GT : phys_lt r b a ↔ (y * fb < x * fa)%Qc).
+  { unfold phys_lt. rewrite Pha, Phb. split.
+    - intros (? & ? & ? & H1 & H2 & Hlt). apply some_pair_inj in H1 as [<- <-]. apply some_pair_inj in H2 as [_ <-]. exact Hlt.
+    - intros Hlt. exists d, (y * fb)%Qc, (x * fa)%Qc. auto. }
+  assert (EQ : phys_eq r a b ↔ (x * fa = y * fb)%Qc).
+  { unfold phys_eq. rewrite Pha, Phb. split.
+    - intros (? & H1 & H2). rewrite <- H1 in H2. apply some_pair_inj in H2 as [_ H2]. symmetry. exact H2.
+    - intros E. rewrite E. eauto. }
+  rewrite LT, GT, EQ. cbn [mag_cmp].
+  destruct (x * fa ?= y * fb)%Qc eqn:E; cbn [ord_lt ord_gt ord_eq].
+  - apply Qceq_alt in E. rewrite E. split; [|split].
+    + split; [discriminate|]. intros Hlt. exfalso. exact (Qclt_not_eq _ _ Hlt eq_refl).
+    + split; [discriminate|]. intros Hlt. exfalso. exact (Qclt_not_eq _ _ Hlt eq_refl).
+    + split; reflexivity.
+  - apply Qclt_alt in E. split; [|split].
+    + split; [intros _; exact E | reflexivity].
+    + split; [discriminate|]. intros Hlt. exfalso. exact (Qclt_not_le _ _ Hlt (Qclt_le_weak _ _ E)).
+    + split; [discriminate|]. intros X. rewrite X in E. exfalso. exact (Qclt_not_eq _ _ E eq_refl).
+  - apply Qcgt_alt in E. split; [|split].
+    + split; [discriminate|]. intros Hlt. exfalso. exact (Qclt_not_le _ _ Hlt (Qclt_le_weak _ _ E)).
+    + split; [intros _; exact E | reflexivity].
+    + split; [discriminate|]. intros X. rewrite X in E. exfalso. exact (Qclt_not_eq _ _ E eq_refl).
+Qed.
